@@ -80,7 +80,10 @@ class RemoveAddZeroPass(InstructionPass):
     def on_instruction(self, instruction):
         if type(instruction) is ir.Binop:
             if instruction.operation == "+":
-                if (
+                if isinstance(instruction.ty, ir.FloatingPointTyp):
+                    # x + 0.0 is not x when x is -0.0
+                    pass
+                elif (
                     type(instruction.b) is ir.Const
                     and instruction.b.value == 0
                 ):
